@@ -12,9 +12,8 @@ From C06 Require Import Proofs.
 
 (** Under H_create (one create event, cited by every other event of the store) the resolved
     map does not depend on the order of the state sets, of the auth chains, of their entries,
-    nor on any internal enumeration.  As C07's composition it carries the traversal-fuel
-    hypothesis, hence "partial". *)
-Theorem C06_resolve_order_independent_partial :
+    nor on any internal enumeration. *)
+Theorem C06_resolve_order_independent :
   forall (st : store) (auth : event -> (key -> option event) -> bool) (auth_types : event -> option (list key))
          (rank : id -> nat),
   (forall i e a, fetch st i = Some e -> In a (e_auth e) -> (rank a < rank i)%nat) ->
@@ -25,7 +24,6 @@ Theorem C06_resolve_order_independent_partial :
   auth_local auth auth_types ->
   forall (c : id) (ce : event) (cr : str), h_create st c ce cr -> pl_wf st ->
   (forall i e, fetch st i = Some e -> i <> c -> In c (e_auth e)) ->
-  (forall full control, build_graph st full control <> None) ->
   forall (o o' : oracles) sets sets' chains chains',
   perm_oracles o -> perm_oracles o' ->
   maps sets -> (forall ch, In ch chains -> NoDup ch) ->
@@ -36,8 +34,8 @@ Theorem C06_resolve_order_independent_partial :
                /\ resolve st auth auth_types o' sets' chains' = Ok m'
                /\ smap_equiv m m'.
 Proof. exact resolve_order_independent. Qed.
-Eval compute in "PA:C06_resolve_order_independent_partial"%string.
-Print Assumptions C06_resolve_order_independent_partial.
+Eval compute in "PA:C06_resolve_order_independent"%string.
+Print Assumptions C06_resolve_order_independent.
 
 (** Every stage up to the sort is order-independent without any hypothesis on the store:
     the full conflicted set is the same set ... *)
